@@ -97,6 +97,8 @@ def corpus(ctx):
     cases = []
     d = os.path.join(core.VERIF, "corpus", "C18")
     for f in sorted(os.listdir(d)) if os.path.isdir(d) else []:
+        if not os.path.isfile(os.path.join(d, f)):
+            continue
         for l in open(os.path.join(d, f)):
             if l.strip():
                 j = json.loads(l)
@@ -122,6 +124,104 @@ def watcher(ctx, n):
                           {"domain": "diskwatch", "input": json.loads(l), "expected": want, "got": a})
 
 
+def flag_probes(v):
+    """(total, free) pairs around the threshold the operator asked for, on a 1 TiB volume"""
+    t = Fraction(v) * GIB
+    fl = t.numerator // t.denominator
+    return [(1 << 40, max(0, f)) for f in (fl - 1, fl, fl + 1, 0, 60 * GIB)]
+
+
+def flag_case(v, via, tmp):
+    args = ["get", "url"] + (["--min-space-required", repr(v) if isinstance(v, float) else str(v)] if via == "flag" else []) + ["http://origin.invalid/"]
+    env = {"HOME": tmp}
+    if via == "env":
+        env["ZENO_MIN_SPACE_REQUIRED"] = str(v)
+    doc = {"args": args, "probes": [[str(a), str(b)] for a, b in flag_probes(float(v))]}
+    rc, out, err = core.run_impl("flags", [json.dumps(doc)], env=env, timeout=60)
+    last = [l for l in out if l.startswith("{")]
+    return doc, env, (json.loads(last[-1]) if last else {"error": "no answer rc=%s %s" % (rc, err[-200:])})
+
+
+def flagpath(ctx, n):
+    """The operator's setting as the operator gives it: the real command line (cobra flags, viper binding,
+    config.InitConfig with its alias handling) or the ZENO_ environment variable, then the real threshold
+    decision with the configuration that results. One process per command line."""
+    import tempfile, shutil
+    from concurrent.futures import ThreadPoolExecutor
+    r = ctx.rng
+    vals = [20, 20.0, 20.5, 19, 21, 1, 0.5, 50, 49.99, 100, 256, 1000, 2, 8, 64]
+    vals += [r.randrange(1, 200) for _ in range(n)] + [round(r.random() * 100, r.randrange(0, 4)) or 1 for _ in range(n)]
+    jobs = []
+    fd = os.path.join(core.VERIF, "corpus", "C18", "flags")
+    for f in sorted(os.listdir(fd)) if os.path.isdir(fd) else []:
+        j = json.load(open(os.path.join(fd, f)))
+        jobs.append((j["value"], j["via"]))
+    jobs += [(v, "flag") for v in vals] + [(v, "env") for v in vals[: max(6, n)]]
+    tmp = tempfile.mkdtemp(prefix="c18home")
+    try:
+        with ThreadPoolExecutor(12) as ex:
+            res = list(ex.map(lambda j: flag_case(j[0], j[1], tmp), jobs))
+    finally:
+        shutil.rmtree(tmp, ignore_errors=True)
+    rcm, mout, merr = core.run_model("disk", [json.dumps({"givenq": core.frac(float(v))}) for v, _ in jobs])
+    for ((v, via), (doc, env, out)), m in zip(zip(jobs, res), mout):
+        if "minSpaceRequired" in out and m != core.frac(float(out["minSpaceRequired"])):
+            ctx.disagree({"given": v, "via": via}, out["minSpaceRequired"], m)
+        ctx.case("flag/%s/%r" % (via, v), True)
+        ctx.count("operator-setting-via-" + via)
+        rp = {"domain": "flags", "input": doc, "env": {k: w for k, w in env.items() if k != "HOME"}, "value": v}
+        if "error" in out and "minSpaceRequired" not in out:
+            raise RuntimeError("flags harness: " + str(out))
+        got = float(out["minSpaceRequired"])
+        want = ["refuse" if Fraction(f) < Fraction(float(v)) * GIB else "accept" for _, f in flag_probes(float(v))]
+        if got != float(v) or out.get("decisions") != want:
+            ctx.violation("the operator's --min-space-required is not the threshold used: given %r (%s), configuration holds %r, "
+                          "decisions at free=threshold-1/threshold/threshold+1/0/60GiB on a 1 TiB volume are %s, the property says %s"
+                          % (v, via, got, out.get("decisions"), want), dict(rp, expected=want, got=out))
+
+
+def slow_worker(ctx, n):
+    """low, sufficient while one worker is slow to acknowledge the resume, low again before it does: at the end the
+    disk is low, so the pipeline (manager and worker) must be paused — the last element of the model's `watch`."""
+    r = ctx.rng
+    lines = [json.dumps({"op": "slowworker", "holdMs": h}) for h in [20] + [r.choice([5, 10, 30, 50]) for _ in range(n)]]
+    rc, out, err = core.run_impl("diskwatch", lines, timeout=300)
+    rcm, mout, merr = core.run_model("diskwatch", [json.dumps({"lows": [True, False, True]})])
+    model_last = mout[0].split(",")[-1].startswith("paused") if mout else None
+    if len(out) != len(lines):
+        raise RuntimeError("diskwatch slowworker: %d answers for %d lines rc=%s %s" % (len(out), len(lines), rc, err[-300:]))
+    for l, a in zip(lines, out):
+        ctx.case("slowworker" + l, True)
+        ctx.count("watcher-slow-acknowledgement")
+        impl_last = "managerPaused=true workerPaused=true" in a
+        if "firstPause=true" not in a:
+            raise RuntimeError("slowworker scenario did not reach its first pause: " + a)
+        if model_last is not None and impl_last != model_last:
+            ctx.disagree(json.loads(l), a, mout[0])
+        if not impl_last:
+            ctx.violation("the disk is low but the pipeline is running: low, sufficient (a worker still acknowledging the resume), "
+                          "low again, acknowledgement: " + a, {"domain": "diskwatch", "input": json.loads(l), "expected": "paused", "got": a})
+
+
+def statfs_probe(ctx):
+    """the real CheckDiskUsage on the real volume: the space that counts is what the process may use (statfs `bavail`),
+    not the raw free blocks; settings 256 MiB below / above it, and one between `bavail` and `bfree` when the volume has
+    reserved blocks"""
+    rc, out, err = core.run_impl("diskwatch", [json.dumps({"op": "statfs"})], timeout=60)
+    if not out or not out[0].startswith("avail="):
+        raise RuntimeError("diskwatch statfs: %s %s" % (out, err[-300:]))
+    kv = dict(x.split("=") for x in out[0].split())
+    ctx.case("statfs", True)
+    ctx.count("statfs-probe:" + ("reserved-blocks-gap" if kv["between"] != "no-gap" else "no-gap"))
+    want = {"below": "accept", "above": "refuse", "between": "refuse"}
+    for k, w in want.items():
+        if kv[k] != w and kv[k] != "no-gap":
+            ctx.violation("CheckDiskUsage does not decide on the space available on the volume (available %s, raw free %s bytes): "
+                          "a threshold %s it gives %s" % (kv["avail"], kv["free"], {"below": "256 MiB below the available space",
+                          "above": "256 MiB above the available space", "between": "between available and raw free"}[k], kv[k]),
+                          {"domain": "diskwatch", "input": {"op": "statfs"}, "expected": want, "got": kv})
+
+
 def run(ctx):
     n = 200000 if ctx.thorough() else 6000
     cases = corpus(ctx) + gen(ctx, n)
@@ -130,6 +230,9 @@ def run(ctx):
     judge(ctx, cases, impl, model)
     monotone(ctx, 20000 if ctx.thorough() else 800)
     watcher(ctx, 60 if ctx.thorough() else 6)
+    slow_worker(ctx, 20 if ctx.thorough() else 3)
+    statfs_probe(ctx)
+    flagpath(ctx, 60 if ctx.thorough() else 6)
     for c, a in list(zip(cases, impl))[:4]:
         ctx.sample({"total": c[0], "free": c[1], "min_space_required": c[2], "impl": a})
     ctx.assumptions += ["float64 products in checkThreshold are exact on the ranges used (validated by the correspondence, not proved)",
@@ -138,6 +241,28 @@ def run(ctx):
 
 def replay(ctx, doc):
     rp = doc.get("replay", doc)
+    if rp.get("domain") == "flags":
+        import tempfile, shutil
+        tmp = tempfile.mkdtemp(prefix="c18home")
+        try:
+            via = "env" if rp.get("env") else "flag"
+            d, env, out = flag_case(rp["value"], via, tmp)
+        finally:
+            shutil.rmtree(tmp, ignore_errors=True)
+        v = rp["value"]
+        want = ["refuse" if Fraction(f) < Fraction(float(v)) * GIB else "accept" for _, f in flag_probes(float(v))]
+        if float(out.get("minSpaceRequired", "nan")) != float(v) or out.get("decisions") != want:
+            ctx.violation("the operator's --min-space-required is not the threshold used: given %r (%s), configuration holds %s, decisions %s, expected %s"
+                          % (v, via, out.get("minSpaceRequired"), out.get("decisions"), want), rp)
+        return
+    if rp.get("domain") == "diskwatch" and rp["input"].get("op") == "statfs":
+        statfs_probe(ctx)
+        return
+    if rp.get("domain") == "diskwatch" and rp["input"].get("op") == "slowworker":
+        rc, out, err = core.run_impl("diskwatch", [json.dumps(rp["input"])], timeout=60)
+        if not out or "managerPaused=true workerPaused=true" not in out[0]:
+            ctx.violation("the disk is low but the pipeline is running: " + (out[0] if out else err[-200:]), rp)
+        return
     if rp.get("domain") == "diskwatch":
         impl, model = ctx.pair("diskwatch", [json.dumps(rp["input"])])
         lows = rp["input"]["lows"]
